@@ -2,4 +2,4 @@ From Coq Require Import List ZArith Extraction ExtrOcamlBasic.
 From DDP Require Import Rt.Str Rt.StrSpec.
 Extraction Language OCaml.
 Extraction "c12_model.ml" m_step init_state m_char_to_string m_string_to_char utf8_num_bytes_char
-  utf8_strlen utf8_indicated_num_bytes int_to_char char_to_int cps sstep sinit in_text shrink_free.
+  utf8_strlen utf8_indicated_num_bytes int_to_char char_to_int cps sstep sinit in_text.
